@@ -15,6 +15,9 @@ Files == ndJsonDeserialize(IOEnv.FILES)
 Expected(f) ==
   IF f.kind = "missing" THEN "ENOENT"
   ELSE IF f.kind = "dir" THEN "EISDIR"          \* open succeeds on a directory, the header read fails
+  \* mmapfail: the run was made under an address-space limit that makes mapping the declared (huge) size fail:
+  \* a header that passes validation then yields the failing system call with its errno
+  ELSE IF f.mmapfail /\ OpenOutcomeOf(TRUE, f.len, f.mok, f.size, f.ver, f.gen) = "Ok" THEN "ENOMEM"
   ELSE OpenOutcomeOf(TRUE, f.len, f.mok, f.size, f.ver, f.gen)
 
 ASSUME PrintT(<<"CHECKED", Len(Files)>>)
